@@ -15,7 +15,7 @@ import pyPRISM
 
 PID = 'C08'
 RULE = ('cases = (family gaussian | yukawa | exponential | sphere indicator, width resolved by >= 8 coarse grid points and decayed to < 1e-12 at r_max, '
-        'amplitude 1e-3..1e3 of either sign, r_max in 25.6|51.2|102.4, coarse dr in 0.2|0.1|0.05 (0.4 for wide functions), 3 levels quick / 4 thorough; the levels are fresh Domains (dr or dk constructor) or ONE Domain refined through its dr/dk/length setters in either order); '
+        'amplitude 1e-15..1e6 of either sign, r_max in 25.6|51.2|102.4, coarse dr in 0.2|0.1|0.05 (0.4 for wide functions), 3 levels quick / 4 thorough; the levels are fresh Domains (dr or dk constructor) or ONE Domain refined through its dr/dk/length setters in either order); '
         'each case = one refinement family judged at ~60 fixed wavenumbers, the k->0 limit and (gaussian/exponential) ~30 fixed r; '
         'non-trivial = all levels executed and at least one fixed-k error above the noise floor; distinct = distinct case digests')
 ASSUMPTIONS = ['closed forms: gaussian (pi/a)^1.5 exp(-k^2/4a); yukawa 4pi/(k^2+kappa^2); exponential 8 pi kappa/(k^2+kappa^2)^2; sphere 4pi(sin kR - kR cos kR)/k^3',
@@ -44,7 +44,7 @@ def cases(ctx):
             w = float(rng.uniform(lo, rmax / 29.0)) if rmax / 29.0 > lo else lo
         else:
             w = float(dr0 * rng.integers(8, int(0.5 * rmax / dr0)))
-        yield {'kind': kind, 'w': w, 'A': float(10 ** rng.uniform(-3, 3) * rng.choice([-1, 1])), 'rmax': rmax, 'dr0': dr0,
+        yield {'kind': kind, 'w': w, 'A': float(10 ** (rng.uniform(-3, 3) if rng.random() < 0.6 else rng.uniform(-15, 6)) * rng.choice([-1, 1])), 'rmax': rmax, 'dr0': dr0,
                'levels': 4 if ctx.thorough() else 3,
                'how': str(rng.choice(['fresh', 'fresh', 'fresh_dk', 'refine_dr_then_length', 'refine_length_then_dr', 'refine_length_then_dk']))}
 
@@ -92,7 +92,18 @@ def run_case(ctx, case):
             d.dk = math.pi / rmax
         r, k = np.asarray(d.r), np.asarray(d.k)
         f, F, V = analytic(kind, w, A, r, k)
-        fam.append({'dr': dr, 'L': L, 'r': r, 'k': k, 'f': f, 'F': F, 'V': V, 'Fn': np.asarray(d.to_fourier(f)), 'fn': np.asarray(d.to_real(F))})
+        Fn = d.to_fourier(f)
+        keepF = np.array(Fn, copy=True)
+        fn = d.to_real(F)
+        keepf = np.array(fn, copy=True)
+        # further transforms on the same Domain (the caller still holds Fn and fn)
+        other1 = d.to_fourier(np.cos(r) * f)
+        other2 = d.to_real(F * 0.5)
+        ctx.hook('result_independence_probe')
+        if not np.array_equal(Fn, keepF) or not np.array_equal(fn, keepf) or np.shares_memory(Fn, other1) or np.shares_memory(fn, other2):
+            ctx.violation('cont:result-overwritten-by-later-transform', '%s: an array returned by to_fourier/to_real changed (or shares memory) after a later transform on the same Domain (L=%d)' % (kind, L))
+            return
+        fam.append({'dr': dr, 'L': L, 'r': r, 'k': k, 'f': f, 'F': F, 'V': V, 'Fn': np.asarray(Fn), 'fn': np.asarray(fn)})
     ctx.hook('family')
     n0 = fam[0]['L']
     k0 = fam[0]['k']
